@@ -255,6 +255,10 @@ def compare(rule: Dict[str, Any], recs, real: Dict[str, Any]) -> Optional[str]:
     pos = 0   # oracle scan position (record index)
     expect_found = any(j > i for (i, j) in allm)
     spans = real.get("spans", [])
+    # what the consumer reported must be the leftmost non-overlapping scan of the compiled rule (T-regex reference)
+    if real.get("addr_list") is not None and list(real["addr_list"]) != [stream[a:b] for (a, b) in spans]:
+        return (f"the reported match list {real['addr_list']!r:.300} is not the left-to-right non-overlapping scan of the compiled rule "
+                f"over the stream ({[stream[a:b] for (a, b) in spans]!r:.300})")
     if bool(spans) != expect_found:
         return f"verdict: real={'found' if spans else 'not found'} reference={'found' if expect_found else 'not found'}"
     for (s, e) in spans:
@@ -297,6 +301,10 @@ def neighbourhood(conc: Conc, rule: Dict[str, Any], seed: int = 0, limit: int = 
 def confirm(ob: Dict[str, Any]) -> Tuple[Optional[Dict[str, Any]], str]:
     """try to produce a confirmed failing input for a refuted obligation"""
     rp = ob.get("replay") or {}
+    if rp.get("kind") == "fault":
+        # the obligation itself was decided by running the real entry point on this input
+        return {"fault_job": rp["job"], "real_outcome": ob.get("detail", ""), "expected": rp["job"].get("expect"),
+                "found_by": "fault injection through MasterOfPuppets"}, "the real entry point did not raise"
     if rp.get("kind") not in ("operator", "mnemonic", "operand", "deref"):
         return None, "no concretiser for this obligation kind"
     if ob.get("detail", "").startswith("counter-model"):
@@ -370,6 +378,19 @@ def rerun(prop: str, path: str) -> int:
         print(doc.get("verifier_output", ""))
         print(f"VIOLATION property={prop} replay={path} no-failing-input-found")
         return 1
+    if "fault_job" in ci:
+        env = dict(os.environ)
+        env["PYTHONPATH"] = os.path.join(repo(), "src")
+        p = subprocess.run(["/venv/bin/python", os.path.join(ROOT, "vf", "fault_runner.py")], input=json.dumps([ci["fault_job"]]), text=True,
+                           capture_output=True, env=env, cwd="/tmp")
+        out = json.loads(p.stdout)[0]["outcome"] if p.returncode == 0 else p.stderr[-400:]
+        print(json.dumps({"outcome": out, "expected": ci.get("expected")}))
+        bad = not (out.startswith("raised:") if ci.get("expected") == "raise" else out == "returned:True")
+        if bad:
+            print(f"VIOLATION property={prop} replay={path}")
+            return 1
+        print("no disagreement on this tree")
+        return 0
     if "rule" in ci and "instructions" in ci:
         r = run_real({"rule": ci["rule"], "insts": ci["instructions"], "mode": "all"})
         recs = OR.records_from_instructions(ci["instructions"])
